@@ -288,3 +288,13 @@ package astnormalization
 //@   at call Document.VariableDefinitionByNameAndOperation: assert {types.come.from.the.operation.that.declares.the.variable} arg1 == i.Walker.Ancestors[len(i.Walker.Ancestors)-1].Ref
 //@   modifies *, count(*)
 //@   safety none
+
+// C06, defaults for absent values are coerced like supplied values: within one walk visitors run in registration
+// order, so the default value is put into the variables (extractVariablesDefaultValue) before the lists are coerced
+//@ func OperationNormalizer.setupOperationWalkers
+//@   requires o != nil
+//@   ghost var g_w *astvisitor.Walker = nil
+//@   at call extractVariablesDefaultValue: ghost g_w = arg0
+//@   at call inputCoercionForList: assert {defaults.are.in.the.variables.before.lists.are.coerced} g_w != nil && arg0 == g_w
+//@   modifies *, count(*)
+//@   safety none
